@@ -31,3 +31,4 @@ def run(ctx, rep):
     e21_snfscan.run(facts, rep)
     rep.rule('E3', e3_gcd.__doc__.strip().split('\n')[0])
     e3_gcd.run(facts, rep)
+    e3_gcd.check_bezout_loop(facts, rep)
